@@ -6,6 +6,7 @@ package sx
 import (
 	"encoding/binary"
 	"fmt"
+	"github.com/semafind/semadb/conversion"
 	"io"
 	"os"
 	"sort"
@@ -327,11 +328,16 @@ type PointsView struct {
 	Problems   []string
 }
 
+// The raw dump is decoded with the repository's own codec (package conversion): what a persisted key or
+// value MEANS is defined by that codec, whose faithfulness is property C19's business. A change of the
+// on-disk layout that keeps the codec faithful must not look like a corrupted store to the other checks.
 func nodeKey(k string) (id uint64, suffix byte, ok bool) {
-	if len(k) != 10 || k[0] != 'n' {
+	if len(k) < 3 || k[0] != 'n' {
 		return 0, 0, false
 	}
-	return binary.LittleEndian.Uint64([]byte(k[1:9])), k[9], true
+	suffix = k[len(k)-1]
+	id, ok = conversion.NodeIdFromKey([]byte(k), suffix)
+	return id, suffix, ok
 }
 
 func (d *Dump) Points() *PointsView {
@@ -360,7 +366,7 @@ func (d *Dump) Points() *PointsView {
 				pv.Problems = append(pv.Problems, fmt.Sprintf("point %s: node id value has %d bytes", u, len(v)))
 				continue
 			}
-			pv.IdToNode[u] = binary.LittleEndian.Uint64(v)
+			pv.IdToNode[u] = conversion.BytesToUint64(v)
 			continue
 		}
 		pv.Problems = append(pv.Problems, fmt.Sprintf("unrecognised key %x in points bucket", k))
@@ -380,19 +386,17 @@ func (d *Dump) Internal() InternalView {
 	var iv InternalView
 	b := d.Buckets["internal"]
 	if v, ok := b["pointCount"]; ok && len(v) == 8 {
-		iv.PointCount = binary.LittleEndian.Uint64(v)
+		iv.PointCount = conversion.BytesToUint64(v)
 		iv.HasPointCount = true
 	}
 	if v, ok := b["nextFreeNodeId"]; ok && len(v) == 8 {
-		iv.NextFree = binary.LittleEndian.Uint64(v)
+		iv.NextFree = conversion.BytesToUint64(v)
 		iv.HasNextFree = true
 	} else {
 		iv.NextFree = 2
 	}
 	if v, ok := b["freeNodeIds"]; ok {
-		for i := 0; i+8 <= len(v); i += 8 {
-			iv.FreeIds = append(iv.FreeIds, binary.LittleEndian.Uint64(v[i:]))
-		}
+		iv.FreeIds = append(iv.FreeIds, conversion.BytesToEdgeList(v)...)
 	}
 	return iv
 }
@@ -413,17 +417,9 @@ func (d *Dump) Graph(bucket string) *GraphView {
 		if id, suf, ok := nodeKey(k); ok {
 			switch suf {
 			case 'e':
-				e := make([]uint64, len(v)/8)
-				for i := range e {
-					e[i] = binary.LittleEndian.Uint64(v[8*i:])
-				}
-				g.Edges[id] = e
+				g.Edges[id] = append([]uint64{}, conversion.BytesToEdgeList(v)...)
 			case 'v':
-				f := make([]float32, len(v)/4)
-				for i := range f {
-					f[i] = mathFloat32frombits(binary.LittleEndian.Uint32(v[4*i:]))
-				}
-				g.Vectors[id] = f
+				g.Vectors[id] = Floats(v)
 			case 'q':
 				g.Codes[id] = v
 			default:
@@ -432,7 +428,7 @@ func (d *Dump) Graph(bucket string) *GraphView {
 			continue
 		}
 		if k == "_vamanaMaxNodeId" && len(v) == 8 {
-			g.MaxNodeId = binary.LittleEndian.Uint64(v)
+			g.MaxNodeId = conversion.BytesToUint64(v)
 			g.HasMax = true
 			continue
 		}
@@ -442,17 +438,12 @@ func (d *Dump) Graph(bucket string) *GraphView {
 }
 
 func Floats(v []byte) []float32 {
-	f := make([]float32, len(v)/4)
-	for i := range f {
-		f[i] = mathFloat32frombits(binary.LittleEndian.Uint32(v[4*i:]))
+	if len(v) == 0 {
+		return []float32{}
 	}
-	return f
+	return append([]float32{}, conversion.BytesToFloat32(v)...)
 }
 
 func Words(v []byte) []uint64 {
-	w := make([]uint64, len(v)/8)
-	for i := range w {
-		w[i] = binary.LittleEndian.Uint64(v[8*i:])
-	}
-	return w
+	return append([]uint64{}, conversion.BytesToEdgeList(v)...)
 }
